@@ -439,7 +439,8 @@ Theorem mutation_keep_rows_negative_parent_mutant_refuted :
   exists id_map rows, mutation_keep_rows false id_map rows = OOB.
 Proof. exact Guard4Proofs.mutation_keep_rows_negative_parent_mutant_refuted. Qed.
 
-(* deduplicate_sites: every mutations.site is validated (full integrity check) before
+(* deduplicate_sites: with zero sites the function returns at once (nothing validated, nothing
+   indexed); otherwise every mutations.site is validated (full integrity check) before
    site_id_map is indexed with it *)
 Theorem guard_implies_in_bounds_deduplicate_sites : forall dups num_sites msite,
   0 <= num_sites -> deduplicate_sites_entry true dups num_sites msite <> OOB.
